@@ -216,6 +216,67 @@ def run(ctx):
                 ctx.disagreement('representation: implementation and model differ',
                                  dict(case, impl=flat[-12:], model=(m[-12:] if isinstance(m, list) else m), impl_f=floats, model_f=mf))
     custom_type(ctx)
+    reached_states(ctx)
+
+
+def reached_states(ctx):
+    """equal states hash alike and have equal representations HOWEVER they came about: a state that was hashed, then changed by the
+    library's own dynamics (a door opened in place, a key picked up, the agent moved; in place or through the copying functional step), is
+    compared with a state built from scratch with the same content"""
+    from gym_gridverse.envs import transition_functions as tf
+    from gym_gridverse.utils.fast_copy import fast_copy
+    from vt import impl, tsuite
+    r = ctx.rng
+    types = [gen.TY[n] for n in ('Floor', 'Wall', 'Exit', 'Door', 'Key', 'MovingObstacle', 'Telepod', 'Beacon')]
+    for k in range(120 if ctx.tier == 'quick' else 1200):
+        cs = tsuite.interactive_world(r)
+        # boxes are not representable in a state space: what they hold stands in their place
+        unbox = lambda c: unbox(c[3]) if c[0] == gen.TY['Box'] else c      # noqa: E731
+        cs = (tuple(tuple(unbox(c) for c in row) for row in cs[0]), cs[1], cs[2], gen.NONE if cs[3][0] == gen.TY['Box'] else cs[3])
+        h, w = gen.shape_of(cs[0])
+        s = wire.mkstate(cs)
+        try:
+            hash(s)
+            for obj in [s.grid[y, x] for y in range(h) for x in range(w)] + [s.agent.grid_object]:
+                hash(obj)
+        except TypeError:
+            continue
+        hist = []
+        for _ in range(r.randint(1, 5)):
+            act = r.choice([0, 0, 6, 6, 6, 7, 7, 4, 5, 1, 2, 3])
+            if r.random() < 0.4:
+                s = fast_copy(s)
+                hist.append('copy')
+            try:
+                for n in (0, 1, 4, 2):
+                    tf.transition_function_registry[impl.TNAMES[n]](s, impl.ACTS[act], rng=None)
+            except Exception:  # noqa: BLE001
+                break
+            hist.append(impl.ACTS[act].name)
+            now = wire.cstate(s)
+            fresh = wire.mkstate(now)
+            ctx.case(('reached', now, tuple(hist)), now != cs, None)
+            ctx.count('reached states', 'changed' if now != cs else 'unchanged')
+            case = {'start': gen.show_state(cs), 'history': list(hist), 'state': gen.show_state(now)}
+            try:
+                bad = None
+                if s != fresh or fresh != s:
+                    bad = 'a state reached through a history and a state built from scratch with the same content are not =='
+                elif hash(s) != hash(fresh):
+                    bad = 'a state reached through a history and an equal state built from scratch hash differently'
+                elif any(hash(s.grid[y, x]) != hash(fresh.grid[y, x]) for y in range(h) for x in range(w)):
+                    bad = 'an object of a state reached through a history and the equal object of a state built from scratch hash differently'
+                elif h > 1 and w > 1:      # (one-row / one-column shapes have no state representation: the agent's coordinates are divided by h - 1, w - 1 -- C15)
+                    space = rsuite.state_space(types, [0, 1, 2, 3, 4], (h, w))
+                    for kind in rsuite.KINDS:
+                        rep = rsuite.make_state_representation(kind, space)
+                        if not rep_equal(rep.convert(s), rep.convert(fresh)):
+                            bad = f'`{kind}`: a state reached through a history and an equal state built from scratch have different representations'
+            except Exception as e:  # noqa: BLE001
+                bad = f'comparing / hashing / encoding a state reached through a history raised {type(e).__name__}: {e}'
+            if bad:
+                ctx.violation(bad, case)
+                return
 
 
 def custom_type(ctx):
